@@ -108,10 +108,11 @@ class SeqV:
 
 class MapV:
     """HashMap/BTreeMap/LruCache/HashSet model: association list with decided key equality (insertion order kept)."""
-    __slots__ = ('entries', 'ty', 'is_set')
+    __slots__ = ('entries', 'ty', 'is_set', 'cap')
 
-    def __init__(self, entries=(), ty='?', is_set=False):
+    def __init__(self, entries=(), ty='?', is_set=False, cap=None):
         self.entries, self.ty, self.is_set = [list(e) for e in entries], ty, is_set
+        self.cap = cap        # LruCache capacity (None = far above the explored sizes): a put of a NEW key beyond it evicts the least recently inserted entry
 
     def __repr__(self):
         return 'Map{' + ', '.join(f'{vrepr(k)}: {vrepr(v)}' for k, v in self.entries) + '}'
@@ -180,7 +181,7 @@ def copy_val(v):
     if isinstance(v, SeqV):
         return SeqV([copy_val(x) for x in v.items], v.ty)
     if isinstance(v, MapV):
-        return MapV([[copy_val(k), copy_val(x)] for k, x in v.entries], v.ty, v.is_set)
+        return MapV([[copy_val(k), copy_val(x)] for k, x in v.entries], v.ty, v.is_set, getattr(v, 'cap', None))
     if isinstance(v, IterV):
         n = IterV(v.items, v.kind); n.pos = v.pos
         return n
